@@ -544,17 +544,24 @@ def clause5_handshake(ctx, P, cg):
     # required headers recorded before 101: the 101 site (or the digest computation) must be control dependent on state
     # that only the success path of that header's value callback writes (RFC 6455 4.2.1: key and version are required)
     hvf = P.fn("websocket.c:websocket_upgrade_on_header_value")
-    sw = [i for i in hvf.all_insts() if i.op == "switch"]
-    if len(sw) != 1:
-        raise AnalysisBroken("websocket_upgrade_on_header_value: header dispatch switch not found")
-    sw = sw[0]
+    # the dispatch on the remembered header, as a switch or as an if-chain: the block entered on 'current_header_field == H'
+    def is_chf(t):
+        return Q.is_field_load(t, "struct.websocket", "current_header_field") is not None
+
+    def case_block(hval):
+        out = []
+        for b in range(hvf.nblocks):
+            for (sv, atom, pol) in P.edge_conds(hvf, b):
+                if atom is not None and Q.const_relation(atom, pol, is_chf, hval) is True and sv not in out:
+                    out.append(sv)
+        return out
     seen_state = {}
     for hname, what, checker in (("HEADER_SEC_WEBSOCKET_KEY", "key", "save_websocket_key"),
                                  ("HEADER_SEC_WEBSOCKET_VERSION", "version", "check_websocket_version")):
         hval = Q.enum(P, hname)
-        tgt = [blk for (cv, blk) in sw.cases if cv == hval]
-        if hval is None or len(tgt) != 1:
-            raise AnalysisBroken("header dispatch: case %s not found" % hname)
+        tgt = case_block(hval) if hval is not None else []
+        if len(tgt) != 1:
+            raise AnalysisBroken("websocket_upgrade_on_header_value: header dispatch - case %s not found (%d candidates)" % (hname, len(tgt)))
         state = set()
         guarded = True
         for i in hvf.all_insts():
@@ -628,7 +635,7 @@ def clause7b_list_tokens(ctx, P):
 
     def ptr_of(t):
         return t[1] if t[0] == "load" else None
-    for key in ("websocket.c:check_websocket_protocol", "websocket.c:check_websocket_extensions"):
+    for key in ("websocket.c:check_websocket_protocol", "websocket.c:check_websocket_extensions", "websocket.c:check_upgrade"):
         f = P.fn(key)
         commas, spaces, trims = set(), set(), 0
         for i in f.all_insts():
@@ -890,7 +897,8 @@ def run(ctx):
         clause4_pong(ctx, P)
         clause5_handshake(ctx, P, cg)
         clause6_transparency(ctx, P, cg)
-        clause7_scanners(ctx, P)
+        # (clause7_scanners - 'the two list scanners are twins instruction by instruction' - was withdrawn: it fired on a
+        #  behaviour-preserving rewrite of one twin, refactorings/agents4/D6-4; what matters about them is decided by clause7b)
         clause7b_list_tokens(ctx, P)
         clause8_status_codes(ctx, P)
         clause8_frame_flags(ctx, P, cg)
